@@ -53,6 +53,7 @@ def _callable_value(v):
 
 
 def accepts(ptype, cfg, v):
+    ptype = {'Event': 'Boolean', 'Action': 'Callable'}.get(ptype, ptype)      # same declared constraints as their base type
     allow_none = bool(cfg.get('allow_None'))
     bounds = cfg.get('bounds')
     incl = cfg.get('inclusive_bounds') or (True, True)
